@@ -295,7 +295,7 @@ def appendUnarySel (st : Store) : Nat → AnyOp → Rel → Except Err Res
     let s := sel.slots
     match op with
     | .u (.calc tag e) =>
-      if sel.isCompound then do
+      if sel.isCompound || decide (tag ∈ sel.skipTo.columns) then do
         let inner ← (UOp.calc tag e).finishApply sel
         return .new (← applySkip (inner.get sel) {})
       else if s.hasProj then
@@ -503,7 +503,7 @@ def backtrack (st : Store) : Nat → AnyOp → Rel → Engine → Except Err (Re
           match up with
           | .same =>
             -- `upstream is target`: keep the tree unless the commutation replaced this operation
-            if second == cur then return (.same, done && cdone)
+            if !done || second == cur then return (.same, done && cdone)
             else
               let res ← second.finishApply target
               return (.new (res.get target), done && cdone)
